@@ -298,7 +298,8 @@ fn __dump_header(f: &PathBuf, h: &Qcow2Header) {
     println!("Qcow2 Header: image {:?} length {}", f, h.header_length());
     println!("\t version\t {}", h.version());
     println!("\t virtual_size\t {} MB", h.size() >> 20);
-    println!("\t cluster_size\t {} KB", 1 << (h.cluster_bits() - 10));
+    // clusters may be smaller than 1 KB
+    println!("\t cluster_size\t {} bytes", 1u64 << h.cluster_bits());
     println!("\t refcount_order\t {}", h.refcount_order());
     println!(
         "\t crypt_method\t {}",
@@ -572,12 +573,24 @@ async fn copy_to_qcow2<T: Qcow2IoOps>(
     off: u64,
     bytes: usize,
 ) -> Qcow2Result<usize> {
-    let mut buf = Qcow2IoBuf::<u8>::new(bytes);
+    // the device is written in whole blocks: the tail of a raw file whose
+    // size isn't a multiple of the block size is padded with zeros (the
+    // virtual size is rounded up to the cluster size anyway)
+    let bs = 512;
+    let mut buf = Qcow2IoBuf::<u8>::new(bytes.div_ceil(bs) * bs);
+    buf.zero_buf();
 
     src.seek(SeekFrom::Start(off))?;
-    let res = src.read(&mut buf)?;
+    let mut res = 0;
+    while res < bytes {
+        let n = src.read(&mut buf[res..bytes])?;
+        if n == 0 {
+            break;
+        }
+        res += n;
+    }
 
-    dev.write_at(&buf[0..res], off).await?;
+    dev.write_at(&buf[0..res.div_ceil(bs) * bs], off).await?;
     Ok(res)
 }
 
@@ -622,7 +635,11 @@ fn convert_to_qcow2_prep(raw: &Path, qcow2: &Path) -> Qcow2Result<()> {
     let cluster_bits = 16;
     let cluster_size = 1 << cluster_bits;
     let file_orig_size = std::fs::metadata(raw).unwrap().len();
-    let file_size = (file_orig_size + cluster_size - 1) & !(cluster_size - 1);
+    // an empty raw file still gives an image of one (unallocated) cluster
+    let file_size = std::cmp::max(
+        (file_orig_size + cluster_size - 1) & !(cluster_size - 1),
+        cluster_size,
+    );
 
     let img_buf = __format_qcow2_buf(file_size, cluster_bits, 4, 4096);
     let mut f = std::fs::OpenOptions::new()
